@@ -22,6 +22,7 @@ fixed = [
  ("C15", find("splitAt"), "'abc'.splitAt(4), 'abc'.splitAt(-1) and 'aé'.splitAt(2) panicked inside str::split_at. Found by the first-round harness c15_splitat_* (Kani counterexample at offset -1, before the fix); that harness does not finish on the repaired code (the function returns a two-element list) and is no longer registered - demonstrated by plain test instead, see DESIGN.md section 4"),
  ("C16", find("timestamp/duration"), "timestamp/duration + and - panicked (chrono `expect`) when the result left the representable range, e.g. timestamp(8210266876799) + duration(1), duration MAX + duration MAX (harnesses c16_range_*, c16_arith_dplusd, c16_arith_dminusd)"),
  ("C01", find("timestamp/duration"), "same call sites (harnesses c01_binops_timestamp_duration, c01_binops_duration_duration, ...)"),
+ ("C19", find("never serialized come last"), "a compiled program containing an error constant (e.g. `1 / 0`, `[1, 1 / 0]`) could not be read back from bincode: Serialize wrote CelValue::Err with variant index 15 (17 with protobuf) while Deserialize numbers the non-skipped variants consecutively and expects 14 - `invalid value: integer 15, expected variant index 0 <= i < 15` (mirsym target c19_tags_celvalue, obligation 'index tag of CelValue::Err selects the same variant when read back'; confirmed natively by a bincode round trip)"),
 ]
 p="/verif/known_findings.json"
 try:
